@@ -185,13 +185,12 @@ def proof_status(prop):
     if not thms:
         res['reason'] = 'no theorem in Properties/%s.v' % prop
         return res
-    # the property file may contain nothing but statements closed by `exact`
-    for m in re.finditer(r'Proof\.(.*?)Qed\.', src, re.S):
-        body = m.group(1).strip()
-        if not re.fullmatch(r'(exact\s+[^.]*\.|vm_compute\.\s*(repeat\s+split\.|reflexivity\.|exact\s+[^.]*\.)?|'
-                            r'reflexivity\.|intros[^.]*\.\s*exact\s+[^.]*\.|eexists[^.]*\.\s*vm_compute\.\s*reflexivity\.)',
-                            body):
-            res['reason'] = 'Properties/%s.v contains a proof script other than `exact`: %r' % (prop, body[:80])
+    # the property file may contain nothing but statements closed by `exact` (Examples may compute)
+    for m in re.finditer(r'(?:Theorem|Corollary)\s+(\w+)(.*?)Proof\.(.*?)Qed\.', src, re.S):
+        body = m.group(3).strip()
+        if not re.fullmatch(r'(intros[^.]*\.\s*)?(exact|apply)\s+[^.]*(\.[\w]+[^.]*)*\.', body):
+            res['reason'] = 'Properties/%s.v: theorem %s has a proof script other than `exact <lemma>`: %r' % (
+                prop, m.group(1), body[:80])
             return res
     adir = os.path.join(CACHE, 'assum')
     os.makedirs(adir, exist_ok=True)
